@@ -11,6 +11,7 @@ mod engine;
 mod gen;
 mod json;
 mod mon;
+mod patch_ref;
 mod props;
 mod rng;
 mod text_gen;
